@@ -8,6 +8,7 @@ from ..report import AnalysisError
 from ..srcmodel import unparse, norm, walk_no_nested, calls_in, fold_const
 from .common import is_method_call, cfg_of, get_kw, recv_of, name_defs, node_obj, fde_guard, facts_at, find_stmt_node, parent_chain, F3
 from . import c07
+from . import buildrules
 from . import tr
 from .c10 import _as
 
@@ -23,6 +24,7 @@ DECIDED = [
     'R6: !path file/parent reference points use the node\'s own recorded source file and raise when it is missing; parent(n) beyond the recorded name\'s parents is handled by ".." padding or by absolutising the file name.',
     'R7: StreamNode premerge flattens its builder before taking stages[0] and returns that document\'s own premerge result.',
     'R8: every document added by add_source is a fresh parse result of that call (or a deep copy): stage nodes are never shared between include sites.',
+    'R9: the builder pipeline evaluated on tables of stage answers (finite-domain evaluator): preprocess asks every original stage once, in order, splices streams in place and replaces changed nodes; flatten adopts the pre-merge result of the first stage, checks its new paths, folds left and rejects non-mapping stages; build = None when empty, else preprocess all, flatten, the remaining stage.',
 ]
 UNDECIDED = ['equality of the four ways of splitting a document sequence as data;', 'file-system semantics of normpath/join;', 'abs(...) reference point arithmetic.']
 FLAGS = ('delete', 'allow_new', 'safe', 'priority')
@@ -150,7 +152,7 @@ def include_table(repo, run):
                 return sub
             if name == 'get_lookup_dirs':
                 log.append(('dirs', tuple(args)))
-                return ['d1', 'd2']
+                return iter(['d1', 'd2'])       # a one-shot iterator, like the generator the real get_lookup_dirs is
             if name == 'add_source':
                 f_ = args[0]
                 if str(f_).startswith('/cwd/'):
@@ -411,6 +413,7 @@ def check(repo, run, tier):
     g(r6, repo, run)
     g(r7, repo, run)
     g(r8, repo, run)
+    g(buildrules.builder_pipeline, repo, run, 'C06.R9')
     g.done()
 
 
@@ -428,6 +431,9 @@ def merge_two(r):
 
 def mutants(repo):
     return [
+        Mutant('build-skips-preprocess', lambda r: in_func(r, 'Builder.build', "        self.preprocess()\n        self.flatten()", "        self.flatten()"), ['C06.R9']),
+        Mutant('preprocess-keeps-old-stage', lambda r: in_func(r, 'Builder.preprocess', "if new_stage is not stage:", "if new_stage is stage:"), ['C06.R9', 'C06.R1']),
+        Mutant('flatten-ignores-premerge-result', lambda r: in_func(r, 'Builder.flatten', "if new_stage is not self.stages[0]:", "if new_stage is self.stages[0]:"), ['C06.R9']),
         Mutant('splice-reversed', lambda r: in_func(r, 'Builder.preprocess', "self.stages[i:i+1] = new_stage.stages", "self.stages[i:i+1] = reversed(new_stage.stages)"), ['C06.R1']),
         Mutant('cursor-advances-by-one', lambda r: in_func(r, 'Builder.preprocess', "i += len(new_stage.stages)", "i += len(new_stage.stages[:1])"), ['C06.R1']),
         Mutant('cwd-before-file-dir', lambda r: in_func(r, 'Builder.get_lookup_dirs', "        if ref_point is not None:\n            yield os.path.dirname(ref_point)\n        yield os.getcwd()", "        yield os.getcwd()\n        if ref_point is not None:\n            yield os.path.dirname(ref_point)"), ['C06.R2']),
